@@ -2202,7 +2202,12 @@ int32 matrixSslSentData(ssl_t *ssl, uint32 bytes)
 # ifdef USE_CLIENT_SIDE_SSL
         matrixSslGetSessionId(ssl, ssl->sid);
 # endif /* USE_CLIENT_SIDE_SSL */
-        rc = MATRIXSSL_HANDSHAKE_COMPLETE;
+        if (rc != MATRIXSSL_REQUEST_CLOSE)
+        {
+            /* Never hide a pending close request (an alert was just
+               flushed) behind the completion notice */
+            rc = MATRIXSSL_HANDSHAKE_COMPLETE;
+        }
 # ifdef USE_SSL_INFORMATIONAL_TRACE
         /* Client side resumed completion or server standard completion */
         matrixSslPrintHSDetails(ssl);
